@@ -250,11 +250,22 @@ GROUPS += [
     },
     {
         "id": "C11.dispatch.v6", "property": "C11", "crate": "core", "stubbing": True, "cbmc_args": FS1100,
-        "harnesses": ["c11_v6_"], "jobs": 5, "timeout_s": 1500, "mem_gb": 12,
+        "harnesses": ["c11_v6_dispatch_icmp", "c11_v6_dispatch_udp_min", "c11_v6_dispatch_udp_57", "c11_v6_size_guards",
+                      "c11_v6_dispatch_tcp"], "jobs": 5, "timeout_s": 1500, "mem_gb": 12,
         "functions": ["net::ipv6::Ipv6::{dispatch_icmp_probe,dispatch_udp_probe,dispatch_udp_probe_raw,dispatch_tcp_probe,"
                       "make_echo_request_icmp_packet,make_udp_packet}"],
         "stubs": [SOCK_STUB],
         "bounds": "packet sizes {48, 49, 57} + all out-of-range sizes; Dublin payload lengths {0, 21}; fields symbolic",
+    },
+    {
+        # exact encoding (no field-sensitivity option): with it CBMC reports a spurious counterexample for the
+        # marker copy from a &'static [u8] (DESIGN 7.2)
+        "id": "C11.dispatch.v6.dublin", "property": ["C11", "C02"], "crate": "core", "stubbing": True,
+        "harnesses": ["c11_v6_dispatch_udp_dublin"], "jobs": 2, "timeout_s": 1800, "mem_gb": 24,
+        "functions": ["net::ipv6::Ipv6::{dispatch_udp_probe,dispatch_udp_probe_raw,make_udp_packet}"],
+        "stubs": [SOCK_STUB],
+        "bounds": "Dublin/IPv6 payload = marker + (sequence - initial) bytes for offsets {0, 21}; ports, addresses, ttl, "
+                  "initial sequence symbolic",
     },
     {
         "id": "C13.paris", "property": ["C13", "C11"], "crate": "core", "stubbing": True, "cbmc_args": FS1100,
